@@ -1,5 +1,5 @@
 """C16 -- Typst rendering is total, whitespace-normalised and unambiguous (necessary conditions)."""
-import hir, mir, panics, progress, eqhash, maps
+import psel, hir, mir, panics, progress, eqhash, maps
 from hir import strip, field_path
 from facts import AnchorMissing
 
@@ -91,24 +91,22 @@ def run(ctx):
         else:
             ctx.unrecognised("M-TYPST", "_feature_string %s" % v, "arm is not a constant")
     ctx.floor("_feature_string arms", len(feat), 30)
+    # variant -> bracket pair, read through the pattern-directed selector (psel): nested `match term { .. _ => match term.get_category() {..} }`
+    # and `match (term, term.get_category()) { .. }` select the same leaves
     brk = {}
-    bm = hir.top_match(bs)
-    default_by_cat = {}
-    for v, arm, pat in hir.arms_by_variant(bm):
-        b = strip(arm["body"])
-        if v == "_":
-            if b["k"] == "Match":
-                for c2, arm2, pat2 in hir.arms_by_variant(b):
-                    bb = strip(arm2["body"])
-                    if bb["k"] == "Path":
-                        default_by_cat[c2] = tuple(const_value(f, bb["path"]["def"]))
-                    elif bb["k"] == "Tup":
-                        default_by_cat[c2] = tuple(strip(x)["lit"]["v"] for x in bb["elems"])
-        elif b["k"] == "Path":
-            brk[v] = tuple(const_value(f, b["path"]["def"]))
+    bs_p = [q.get("name") for q in bs["params"] if q.get("k") == "Binding" and q.get("name") != "self"]
     for v in st:
-        if v not in brk:
-            brk[v] = default_by_cat.get(cat.get(v), default_by_cat.get("_", ("", "")))
+        try:
+            leaf = strip(psel.select(bs["body"], set(bs_p[:1]), v, {"get_category": cat.get(v)}))
+        except hir.Unrecognised as u:
+            ctx.unrecognised("M-TYPST", "_brackets_str %s" % v, u.what)
+            continue
+        if leaf["k"] == "Path" and leaf["path"].get("res") == "def":
+            brk[v] = tuple(const_value(f, leaf["path"]["def"]))
+        elif leaf["k"] == "Tup" and all(strip(x)["k"] == "Lit" for x in leaf["elems"]):
+            brk[v] = tuple(strip(x)["lit"]["v"] for x in leaf["elems"])
+        else:
+            ctx.unrecognised("M-TYPST", "_brackets_str %s" % v, "selected leaf is not a constant pair")
     for c in ("Atom", "Compound", "Statement"):
         seen = {}
         for v in st:
@@ -208,12 +206,23 @@ def run(ctx):
                                  ("format_stamp", "enum_narsese::sentence::stamp::Stamp", "STAMP_")):
         it = f.hir_fn(fn_name, module="typst_formatter::formatter_enum")
         ctx.fn(it)
-        mm = [n for n in hir.walk(it["body"]) if n.get("k") == "Match"]
+        vs_ = [v["name"] for v in f.adts[adt]["variants"]]
+        subj = set([q.get("name") for q in it["params"] if q.get("k") == "Binding" and q.get("name") != "self"][-1:])       # the value is the last parameter
+        mm = [n for n in hir.walk(it["body"]) if n.get("k") == "Match" and "Desugar" not in n.get("source", "") and psel.value_of(n["scrut"], subj, "?", {})[0] != "unknown"]
         vm = {}
-        for v, arm, pat in hir.arms_by_variant(mm[0]):
-            b = strip(arm["body"])
-            if b["k"] == "Path" and b["path"].get("res") == "def":
-                vm[v] = b["path"]["def"].rsplit("::", 1)[-1]
+        for v in vs_:
+            consts = set()
+            for m_ in mm:
+                try:
+                    leaf = psel.select(m_, subj, v)
+                except hir.Unrecognised as u:
+                    ctx.unrecognised("M-TYPST", "%s %s" % (fn_name, v), u.what)
+                    continue
+                for n_ in hir.walk(leaf):
+                    if n_.get("k") == "Path" and n_.get("path", {}).get("res") == "def" and n_["path"]["def"].rsplit("::", 1)[-1].startswith(prefix):
+                        consts.add(n_["path"]["def"].rsplit("::", 1)[-1])
+            if len(consts) == 1:
+                vm[v] = consts.pop()
         vs = [v["name"] for v in f.adts[adt]["variants"]]
         ctx.ob("M-TYPST", "%s maps each variant to its own constant" % fn_name,
                set(vm) == set(vs) and len(set(vm.values())) == len(vs) and all(c.startswith(prefix) for c in vm.values()), "%s" % vm)
